@@ -578,9 +578,21 @@ class Lowering:
                 'mangled': m, 'file': f, 'line': l, 'may_raise': m in self.may_raise})
         return done
 
+    def is_static_method(self, d):
+        # an out-of-line definition of a static member function does not repeat `static`: look at the
+        # in-class declaration it redeclares
+        seen = 0
+        while d is not None and seen < 8:
+            if d.get('storageClass') == 'static':
+                return True
+            prev = d.get('previousDecl')
+            d = self.tu.by_id.get(prev) if prev else None
+            seen += 1
+        return False
+
     def param_list(self, d, fs):
         ps = []
-        if d['kind'] in ('CXXMethodDecl', 'CXXConversionDecl', 'CXXDestructorDecl') and d.get('storageClass') != 'static':
+        if d['kind'] in ('CXXMethodDecl', 'CXXConversionDecl', 'CXXDestructorDecl') and not self.is_static_method(d):
             cls = self.class_of(d)
             try:
                 ct = self.record_cname(cls)
@@ -1016,7 +1028,11 @@ class Lowering:
         v = self.expr(ks[0], ctx)
         out = ['case %s: ;' % v]
         for c in ks[1:]:
-            out += self.stmt(c, fs)
+            ls = self.stmt(c, fs)
+            if len(ls) > 1 and c.get('kind') not in ('CaseStmt', 'DefaultStmt', 'DeclStmt', 'CompoundStmt', 'LabelStmt'):
+                # temporaries hoisted out of the statement stay local to it (not to the whole switch block)
+                ls = ['{'] + self.indent(ls, 1) + ['}']
+            out += ls
         return out
 
     def s_DefaultStmt(self, n, fs):
